@@ -97,6 +97,15 @@ def _rep(E, b):
     for i, j in itertools.combinations(range(M + 1), 2):
         s = E.attempt(lambda: b[i:j])
         out["slices"][f"{i}:{j}"] = _l(s.bins) if not isinstance(s, Raised) else {"raised": s}
+    # a slice is a binning of its own: its consecutiveness / edge representation must be those of ITS bins
+    out["slice_props"] = {}
+    for key, sl in (("0:%d" % max(M - 1, 1), slice(0, max(M - 1, 1))), ("1:%d" % M, slice(1, M)), ("::2", slice(None, None, 2))):
+        s = E.attempt(lambda: b[sl])
+        if isinstance(s, Raised) or s.bin_count == 0:
+            continue
+        nb = E.attempt(lambda: s.numpy_bins)
+        out["slice_props"][key] = {"bins": _l(s.bins), "consecutive": E.attempt(s.is_consecutive), "numpy_bins_ok": not isinstance(nb, Raised),
+                                   "cls": type(s).__name__}
     out["items"] = []
     for i in range(M):
         it = b[i]
@@ -261,6 +270,15 @@ class C07Representations(Harness):
             ok = isinstance(sb, list) and len(sb) == j - i
             yield f"slice[{key}]", z3.And([z3.And(cx.t(sb[t][0]) == L[i + t], cx.t(sb[t][1]) == R[i + t]) for t in range(j - i)]) if ok else False
         yield "items", z3.And([z3.And(cx.t(it[0]) == L[j], cx.t(it[1]) == R[j]) for j, it in enumerate(rep["items"]) if it is not None] or [z3.BoolVal(True)])
+        for key, sp in rep.get("slice_props", {}).items():
+            sb = sp["bins"]
+            sl_cons = z3.And([cx.t(sb[t][1]) == cx.t(sb[t + 1][0]) for t in range(len(sb) - 1)]) if len(sb) > 1 else z3.BoolVal(True)
+            clear_gap = z3.And([z3.Or(cx.t(sb[t][1]) == cx.t(sb[t + 1][0]), cx.t(sb[t + 1][0]) - cx.t(sb[t][1]) > ATOL + RTOL * zabs(cx.t(sb[t][1]))) for t in range(len(sb) - 1)]) if len(sb) > 1 else z3.BoolVal(True)
+            if isinstance(sp["consecutive"], bool):
+                yield f"slice_is_consecutive[{key}]", z3.Implies(clear_gap, z3.BoolVal(sp["consecutive"]) == sl_cons)
+                yield f"slice_numpy_bins_iff_consecutive[{key}]", z3.Implies(clear_gap, z3.BoolVal(sp["numpy_bins_ok"]) == sl_cons)
+            else:
+                yield f"slice_is_consecutive[{key}]", False
 
 
 def _info(E, b):
